@@ -51,6 +51,17 @@ Definition set_cur (c : option nat) (s : asess) : asess :=
 Definition set_wc_done (b : bool) (s : asess) : asess :=
   mkas (wanted s) (pc s) (cur s) (tr s) (conns s) (closing s) b (wcl_done s) (queue s) (delivered s) (waiting s)
        (recvd s) (attempts s) (pend s) (outcome s) (cancel_req s) (cst s) (ready s) (raised s).
+Definition set_closing (b : bool) (s : asess) : asess :=
+  mkas (wanted s) (pc s) (cur s) (tr s) (conns s) b (wc_done s) (wcl_done s) (queue s) (delivered s) (waiting s)
+       (recvd s) (attempts s) (pend s) (outcome s) (cancel_req s) (cst s) (ready s) (raised s).
+Definition set_cst (c : cstate) (s : asess) : asess :=
+  mkas (wanted s) (pc s) (cur s) (tr s) (conns s) (closing s) (wc_done s) (wcl_done s) (queue s) (delivered s) (waiting s)
+       (recvd s) (attempts s) (pend s) (outcome s) (cancel_req s) c (ready s) (raised s).
+(* Task.cancel() on the reconnect task: a task that has not finished is marked and scheduled to receive CancelledError *)
+Definition task_cancel_reconnect (s : asess) : asess :=
+  let live := match pc s with PDone => false | _ => true end in
+  mkas (wanted s) (pc s) (cur s) (tr s) (conns s) (closing s) (wc_done s) (wcl_done s) (queue s) (delivered s) (waiting s)
+       (recvd s) (attempts s) (pend s) (outcome s) live (cst s) (if live then enq TR (ready s) else ready s) (raised s).
 Definition set_tr (c : option nat) (s : asess) : asess :=
   mkas (wanted s) (pc s) (cur s) c (conns s) (closing s) (wc_done s) (wcl_done s) (queue s) (delivered s) (waiting s)
        (recvd s) (attempts s) (pend s) (outcome s) (cancel_req s) (cst s) (ready s) (raised s).
@@ -229,6 +240,41 @@ def method(tree, cls, name, nparams):
     return params, fds[0].body
 
 
+def close_coroutine(tree):
+    """asyncio ClientSession.close(): the coroutine from its start to where it parks (`await self.when_closed`) or ends.
+    self.transport = tr (the index of the connection whose transport the session holds); Task.cancel() on the reconnect task is
+    the hand-written task_cancel_reconnect; parking at the await = cst CWaiting, the end of the coroutine = cst CDone"""
+    cl = [s for s in tree.body if isinstance(s, ast.ClassDef) and s.name == 'ClientSession']
+    fds = [m for m in cl[0].body if isinstance(m, ast.AsyncFunctionDef) and m.name == 'close'] if cl else []
+    if len(fds) != 1 or fds[0].decorator_list or len(fds[0].args.args) != 1:
+        raise Unsupported(tree, 'async def close')
+    body = [x for x in fds[0].body if not (isinstance(x, ast.Expr) and isinstance(x.value, ast.Constant))]
+    if len(body) != 2:
+        raise Unsupported(fds[0], 'close() has %d statements' % len(body))
+    a, b = body
+    if not (isinstance(a, ast.Assign) and len(a.targets) == 1 and self_attr(a.targets[0], 'closing') and isinstance(a.value, ast.Constant)
+            and a.value.value is True):
+        raise Unsupported(a, 'self.closing = True')
+    if not (isinstance(b, ast.If) and self_attr(b.test, 'transport') and len(b.body) == 2 and len(b.orelse) == 1):
+        raise Unsupported(b, 'if self.transport')
+    c1, c2 = b.body
+    ok1 = (isinstance(c1, ast.Expr) and isinstance(c1.value, ast.Call) and is_attr(c1.value.func, 'close') and self_attr(c1.value.func.value, 'transport')
+           and not c1.value.args)
+    ok2 = isinstance(c2, ast.Expr) and isinstance(c2.value, ast.Await) and self_attr(c2.value.value, 'when_closed')
+    e = b.orelse[0]
+    ok3 = (isinstance(e, ast.Expr) and isinstance(e.value, ast.Call) and is_attr(e.value.func, 'cancel') and self_attr(e.value.func.value, '_ensure_connected')
+           and not e.value.args)
+    if not (ok1 and ok2 and ok3):
+        raise Unsupported(b, 'branches of close()')
+    return ('(* %s: ClientSession.close (a coroutine): from its start to where it parks or ends *)\n'
+            'Definition ClientSession_close_start (s : asess) : asess :=\n'
+            '  (let s := (set_closing true s) in\n'
+            '   match tr s with\n'
+            '   | Some t_k => (let s := (closek t_k s) in (let s := (set_cst CWaiting s) in s))\n'
+            '   | None => (let s := (task_cancel_reconnect s) in (let s := (set_cst CDone s) in s))\n'
+            '   end).' % FL['src'])
+
+
 def translate_flavour(name):
     global FL
     FL = FLAVOURS[name]
@@ -255,6 +301,8 @@ def translate_flavour(name):
         term = ProtoFn(params).stmts(body)
         defs.append('(* %s: _Protocol.%s (self = the protocol object of connection t_k; the bool: an exception escaped) *)\n'
                     'Definition %sProtocol_%s (t_k : nat) (s : asess) : asess * bool :=\n  %s.' % (FL['src'], name2, px, cn, term))
+    if name == 'aio':
+        defs.append(close_coroutine(tree))
     return defs
 
 
